@@ -17,6 +17,7 @@ import lib
 import gen_asn1
 import c11c12_gen as G
 import c11c12_oracle as O
+import c11c12_coq
 from common import to_coq
 
 FIXED = '''
@@ -137,13 +138,21 @@ class Batch(object):
         self.rt = gen_asn1.make_resolver(em)
         self.cases = []       # (name, value, label, libobs)
 
-    def coq(self, i):
-        env = gen_asn1.coq_env(self.em)
+    def coq_chunks(self, chunk=40):
+        return range(0, len(self.cases), chunk)
+
+    def coq(self, i, chunk=40):
+        """Coq texts (one Eval each) for chunks of the cases."""
+        env = c11c12_coq.cq(gen_asn1.coq_env(self.em))
         tys = dict(self.em['types'])
-        cs = [(n, gen_asn1.coq_value(self.rt, tys[n], v)) for n, v, _, _ in self.cases]
-        return ('Definition env%d : env := %s.\nDefinition cases%d : list (string * value) := %s.\n'
-                'Eval vm_compute in map (run_constraints Repaired env%d) cases%d.\n'
-                % (i, to_coq(env), i, to_coq(cs), i, i))
+        out = []
+        for j in range(0, len(self.cases), chunk):
+            cs = [(n, gen_asn1.coq_value(self.rt, tys[n], v)) for n, v, _, _ in self.cases[j:j + chunk]]
+            k = '%d_%d' % (i, j)
+            out.append('Definition env%s : env := %s.\nDefinition cases%s : list (string * value) := %s.\n'
+                       'Eval vm_compute in map (run_constraints Repaired env%s) cases%s.\n'
+                       % (k, env, k, c11c12_coq.cq(cs), k, k))
+        return out
 
 
 CODE = {0: 'pass', 1: 'constraints', 2: 'encode', 3: 'foreign', 4: 'fuel', 5: 'unmodelled', 6: 'other'}
@@ -247,10 +256,10 @@ def run_module(ctx, mod, em, text, g, given_values, budget, batches, dec_budget)
 
 
 def corr(ctx, batches):
-    body = 'Open Scope string_scope.\n' + ''.join(b.coq(i) for i, b in enumerate(batches))
-    res = ctx.coq_eval('corr', ['Base.Prelude', 'Syntax.Asn1', 'Check.Location', 'Check.Constraints', 'Check.Run'], body,
-                       timeout=1500)
-    assert len(res) == len(batches), (len(res), len(batches))
+    res = c11c12_coq.eval_batches(ctx, 'corr', ['Base.Prelude', 'Syntax.Asn1', 'Check.Location', 'Check.Constraints', 'Check.Run'],
+                                  [t for i, b in enumerate(batches) for t in b.coq(i)])
+    it = iter(res)
+    res = [[x for _ in b.coq_chunks() for x in next(it)] for b in batches]
     agree = 0
     for b, rs in zip(batches, res):
         assert len(rs) == len(b.cases)
